@@ -443,6 +443,12 @@ func cmdCheck(args []string) int {
 			normal = append(normal, j)
 		}
 	}
+	// background theory must be consistent: prelude, every prelude block, every spec axiom and literal fact,
+	// seeded with terms that make the quantifier patterns fire (an inconsistent axiom proves everything)
+	if res, who := axiomConsistency(c.Spec, filepath.Join(work, "axioms.smt2")); res == "unsat" {
+		fmt.Fprintf(os.Stderr, "CHECK BROKEN: the background axioms are inconsistent (%s answers unsat to the axioms alone)\n", who)
+		return 2
+	}
 	tGen := time.Since(t0)
 	solveAll(normal, timeout, agree, 16)
 	solveAll(expectedFail, 3, false, 16)
@@ -755,3 +761,52 @@ func sortedKeys(m map[string]bool) []string {
 }
 
 var _ = strings.TrimSpace
+
+// axiomConsistency asks every solver whether the background theory alone is satisfiable.
+func axiomConsistency(sp *SpecPrelude, file string) (string, string) {
+	var sb strings.Builder
+	sb.WriteString("(set-logic ALL)\n")
+	sb.WriteString(preludeCore)
+	for _, b := range preludeBlocks {
+		sb.WriteString(b.text)
+	}
+	sb.WriteString(sp.Decls)
+	for _, f := range sp.LitFacts {
+		fmt.Fprintf(&sb, "(assert %s)\n", f)
+	}
+	for _, a := range sp.Axioms {
+		sb.WriteString(a.Text)
+	}
+	// seeds: strings, slices, byte arrays with extreme elements, concatenations, sub-strings
+	sb.WriteString(`(declare-const seed.s1 Str)
+(declare-const seed.s2 Str)
+(declare-const seed.i Int)
+(declare-const seed.a1 (Array Int Int))
+(assert (>= (slen (sconcat seed.s1 seed.s2)) 0))
+(assert (>= (sat (sconcat seed.s1 seed.s2) seed.i) 0))
+(assert (>= (slen (ssub seed.s1 0 1)) 0))
+(assert (>= (sat (ssub seed.s1 0 1) 0) 0))
+(assert (>= (slen (str.of seed.a1 0 2)) 0))
+(assert (>= (sat (str.of seed.a1 0 2) 1) 0))
+(assert (>= (sat (str.of ((as const (Array Int Int)) 1000) 0 2) 1) 0))
+(assert (>= (sat (str.of ((as const (Array Int Int)) (- 1)) 0 2) 0) 0))
+(assert (>= (bit.xor seed.i 1) (- 1000000)))
+`)
+	sb.WriteString("(check-sat)\n")
+	os.MkdirAll(filepath.Dir(file), 0o755)
+	os.WriteFile(file, []byte(sb.String()), 0o644)
+	ch := make(chan solveResult, len(solvers))
+	for i := range solvers {
+		go func(i int) { ch <- runSolver(solvers[i], file, 4) }(i)
+	}
+	res, who := "unknown", ""
+	for range solvers {
+		r := <-ch
+		if r.res == "unsat" {
+			res, who = "unsat", r.solver
+		} else if r.res == "sat" && res != "unsat" {
+			res, who = "sat", r.solver
+		}
+	}
+	return res, who
+}
